@@ -56,6 +56,41 @@ type Ev struct {
 	Pause time.Duration `json:"pause,omitempty"`
 }
 
+// The adversarial strings of an event hold invalid UTF-8 on purpose: they are written to the replay file
+// byte for byte (core.Bin), not the way encoding/json would mangle them.
+func (e Ev) MarshalJSON() ([]byte, error) {
+	type plain Ev
+	aux := struct {
+		plain
+		Fields []core.Bin `json:"fields"`
+		Svc    core.Bin   `json:"svc"`
+		Host   core.Bin   `json:"host,omitempty"`
+	}{plain: plain(e), Svc: core.Bin(e.Svc), Host: core.Bin(e.Host)}
+	for _, f := range e.Fields {
+		aux.Fields = append(aux.Fields, core.Bin(f))
+	}
+	return json.Marshal(aux)
+}
+
+func (e *Ev) UnmarshalJSON(data []byte) error {
+	type plain Ev
+	aux := struct {
+		*plain
+		Fields []core.Bin `json:"fields"`
+		Svc    core.Bin   `json:"svc"`
+		Host   core.Bin   `json:"host,omitempty"`
+	}{plain: (*plain)(e)}
+	if err := json.Unmarshal(data, &aux); err != nil {
+		return err
+	}
+	e.Fields = nil
+	for _, f := range aux.Fields {
+		e.Fields = append(e.Fields, string(f))
+	}
+	e.Svc, e.Host = string(aux.Svc), string(aux.Host)
+	return nil
+}
+
 type Cfg struct {
 	Sim       simrt.Config  `json:"sim"`
 	Sink      string        `json:"sink"` // es | http | splunk | kafka
